@@ -118,7 +118,13 @@ func showParsed(p Parsed, fitted bool) string {
 		if n == 0 {
 			cmds = ""
 		}
-		fmt.Fprintf(&sb, " P %d %s F %s S %s %s %s %s O %s D %d%s M %s", n, cmds, rgba(l.Style.Fill), rgba(l.Style.Stroke),
+		rule := "nonzero"
+		if l.Style.FillRule == canvas.EvenOdd {
+			rule = "evenodd"
+		} else if l.Style.FillRule != canvas.NonZero {
+			rule = fmt.Sprint(l.Style.FillRule)
+		}
+		fmt.Fprintf(&sb, " P %d %s F %s %s S %s %s %s %s O %s D %d%s M %s", n, cmds, rgba(l.Style.Fill), rule, rgba(l.Style.Stroke),
 			hc.H(l.Style.StrokeWidth), capName(l.Style.StrokeCapper), jn, hc.H(l.Style.DashOffset), len(l.Style.Dashes), ds,
 			hc.Hs(l.M[0][0], l.M[0][1], l.M[0][2], l.M[1][0], l.M[1][1], l.M[1][2]))
 	}
